@@ -348,9 +348,11 @@ impl Model {
 
     pub fn describe(&self) -> String {
         let unit = self.arcs.values().all(|&w| w == 1);
-        let arcs: Vec<String> = self
+        let total = self.arcs.len();
+        let mut arcs: Vec<String> = self
             .arcs
             .iter()
+            .take(if total > 600 { 300 } else { total })
             .map(|(&(u, v), &w)| {
                 if unit {
                     format!("{u}>{v}")
@@ -359,6 +361,9 @@ impl Model {
                 }
             })
             .collect();
+        if total > 600 {
+            arcs.push(format!("… ({total} arcs in all; replay by seed and index for the full case)"));
+        }
         if self.is_contig() {
             format!("n={} arcs=[{}]", self.n(), arcs.join(","))
         } else {
